@@ -326,9 +326,18 @@ def skeleton_rule(rep, f, name, value_arg, base, rule='R-SKELETON'):
     def inst(key, ok, detail=None, fact=None):
         rep.inst(rule, name, key, ok, w, None if ok else detail, fact=fact)
     uns = div.op == 'udiv' and all(r.op == 'urem' for r in rems)
-    inst('division-and-remainder-are-unsigned', uns,
+    # the signed form: the dividend keeps the sign of the value, quotient and remainder are the truncating ones (their
+    # magnitudes are quotient and remainder of the magnitude) and the MAGNITUDE of each remainder is emitted.  Accepted here
+    # when the remainder is negated somewhere on its way to the digit store; that the digit is |remainder| on every path is
+    # then decided path-sensitively by R-DIGITCHAR (0 <= digit, character == '0' + digit).
+    rem_negs = [i for b in L['blocks'] for i in b.insts if i.op == 'sub' and i.ops[0].k == 'ci' and i.ops[0].ival == 0 and
+                any(depends_on(f, i.ops[1], r) for r in rems)]
+    signed_form = div.op == 'sdiv' and bool(rems) and all(r.op == 'srem' for r in rems) and bool(rem_negs)
+    D['signed_form'] = signed_form
+    inst('division-and-remainder-are-unsigned', uns or signed_form,
          'the digit loop divides with %s/%s: a negative dividend (the minimum value of the type negates to '
-         'itself) yields negative remainders, i.e. characters below \'0\'' % (div.op, ','.join(r.op for r in rems)))
+         'itself) yields negative remainders, i.e. characters below \'0\'' % (div.op, ','.join(r.op for r in rems)),
+         fact={'form': 'unsigned' if uns else 'signed dividend, magnitude of the remainder emitted' if signed_form else 'signed'})
     inst('one-remainder-per-quotient', len(rems) == 1, 'found %d remainder operations on the dividend' % len(rems))
     bdesc = root_desc(f, div.ops[1])
     same = all(root_desc(f, r.ops[1]) == bdesc for r in rems)
@@ -464,7 +473,10 @@ def skeleton_rule(rep, f, name, value_arg, base, rule='R-SKELETON'):
 def neg_rule(rep, f, name, rule='R-NEG', expect=True):
     """negations of the value are carried out in unsigned (wrapping) arithmetic: the magnitude of the
     minimum value is not representable in the signed type, `-x` on it is undefined behaviour"""
-    negs = [i for i in f.all_insts() if i.op == 'sub' and i.ops[0].k == 'ci' and i.ops[0].ival == 0 and i.bits >= 8]
+    rems = [i for i in f.all_insts() if i.op in ('srem', 'urem')]
+    # negating a remainder (|r| < base) cannot overflow and is not a negation of the value
+    negs = [i for i in f.all_insts() if i.op == 'sub' and i.ops[0].k == 'ci' and i.ops[0].ival == 0 and i.bits >= 8 and
+            not any(depends_on(f, i.ops[1], r) for r in rems)]
     if expect and not negs:
         raise AnalysisBroken('%s: no negation found (anchor changed)' % name)
     bad = [i for i in negs if i.d.get('nsw')]
